@@ -149,7 +149,20 @@ variable {α R : Type} [Field R] [LinearOrder R] [IsStrictOrderedRing R]
     `picks · step + accumulator = Σ picked + Σ passed-over`, which never exceeds
     `total = sample_size · step`.  Without positivity the claim is false:
     with `total = 0` the step is 0 and every word is picked (see the example
-    below). -/
+    below).
+
+    SCOPE: proved over an ORDERED FIELD (exact arithmetic: ℚ, ℝ) — it is an
+    UPPER bound there, and the number of picks itself is NOT what the code's
+    IEEE doubles give: the float walk can pick FEWER items than the exact walk.
+    `bandsample(Counter(a=1, b=2, c=7), 3, cutoff=1)` returns 2 words (`c`, `b`:
+    step `10/3` rounds to 3.3333333333333335, the accumulator after two picks
+    is 3.3333333333333326 < step), the rational model 3 (`c`, `b`, `a`: the
+    accumulator is exactly `10/3 ≥ 10/3`) — example below.  That the bound
+    `≤ sample_size` also holds for the doubles is NOT proved (the invariant
+    `picks · step + accumulator = Σ…` uses exact `+`/`−`); it is checked by the
+    differential run only.  The structural theorems (`band_sub`, `band_cutoff`,
+    `band_multiset`, `band_nodup`, `band_counter`, `band_terminates`) hold for
+    the doubles as well (they use no property of the arithmetic). -/
 theorem band_size [DecidableEq α] (population shuffled : List (α × R)) (cutoff : R) (sampleSize : Int)
     (hsize : 1 ≤ sampleSize)
     (hpos : ∀ e ∈ population, cutoff ≤ e.2 → 0 < e.2)
@@ -274,6 +287,46 @@ example :
     bandsampleShuffled shuffled 0 = .zeroDivision := by
   refine ⟨by decide +kernel, by decide +kernel, by decide +kernel, by decide +kernel, by decide +kernel,
     by decide +kernel⟩
+
+/-! ### the main theorems APPLIED with every hypothesis instantiated (ℚ) -/
+
+def exPop : List (Nat × Rat) := [(0, 5), (1, 1), (2, 3), (3, 3), (4, 20)]
+def exShuf : List (Nat × Rat) := [(4, 20), (3, 3), (0, 5), (2, 3)]
+
+theorem exShuf_perm : exShuf ~ filterCutoff 2 exPop := by decide +kernel
+theorem exShuf_run : bandsampleShuffled exShuf 2 = .ok [(4, 20), (0, 5)] := by decide +kernel
+
+/-- `band_size` applied (`1 ≤ 2`, positive retained frequencies): at most 2 picks -/
+example : ((([(4, 20), (0, 5)] : List (Nat × Rat)).length : Int) ≤ 2) ∧
+    (((toDict ([(4, 20), (0, 5)] : List (Nat × Rat))).length : Int) ≤ 2) :=
+  band_size exPop exShuf 2 2 (by decide) (by decide +kernel) exShuf_perm _ exShuf_run
+
+/-- `band_negative_size` applied: `sample_size = -1` returns all four retained words -/
+example : ([(3, 3), (2, 3), (0, 5), (4, 20)] : List (Nat × Rat)) ~ filterCutoff 2 exPop :=
+  band_negative_size exPop exShuf 2 (-1) (by decide) (by decide +kernel) exShuf_perm _ (by decide +kernel)
+
+/-- `band_multiset`, `band_sub`, `band_cutoff`, `band_nodup`, `band_counter` applied -/
+example : ∃ rest, ([(4, 20), (0, 5)] : List (Nat × Rat)) ++ rest ~ filterCutoff 2 exPop :=
+  band_multiset exPop exShuf 2 2 exShuf_perm _ exShuf_run
+
+example : ∀ e ∈ ([(4, 20), (0, 5)] : List (Nat × Rat)), e ∈ exPop :=
+  band_sub exPop exShuf 2 2 exShuf_perm _ exShuf_run
+
+example : ∀ e ∈ ([(4, 20), (0, 5)] : List (Nat × Rat)), (2 : Rat) ≤ e.2 :=
+  band_cutoff exPop exShuf 2 2 exShuf_perm _ exShuf_run
+
+example : (([(4, 20), (0, 5)] : List (Nat × Rat)).map Prod.fst).Nodup :=
+  band_nodup exPop exShuf 2 2 (by decide) exShuf_perm _ exShuf_run
+
+example : toDict ([(4, 20), (0, 5)] : List (Nat × Rat)) = [(4, 20), (0, 5)] :=
+  band_counter exPop exShuf 2 2 (by decide) exShuf_perm _ exShuf_run
+
+/-- the input on which the float walk of the code picks FEWER words than the
+    exact walk (see `band_size`): `Counter(a=1, b=2, c=7)`, `sample_size = 3`,
+    cutoff 1 — the rational model picks all three (the code: `c`, `b`) -/
+example : bandsampleShuffled ([(0, 1), (1, 2), (2, 7)] : List (Nat × Rat)) 3
+    = .ok [(2, 7), (1, 2), (0, 1)] := by
+  decide +kernel
 
 /-- a non-integer step (here 31/3, `sample_size = 3`) and a step that no `int`
     sample_size produces (7/2): `bandsampleRun` covers them -/
